@@ -163,6 +163,27 @@ func (a *UDPAssociation) Context() context.Context {
 	return a.ctx
 }
 
+// ownerIPLocked returns the IP address the association's client sends from:
+// the address named in the UDP ASSOCIATE request if it named one, otherwise
+// the peer address of the TCP control connection, otherwise (no such address
+// is known, e.g. the control connection is not a TCP connection) the address
+// of the first datagram's sender. It returns nil while none of these is known.
+// The caller must hold a.mu.
+func (a *UDPAssociation) ownerIPLocked() net.IP {
+	if e := a.ExpectedClientAddr; e != nil && e.IP != nil && !e.IP.IsUnspecified() {
+		return e.IP
+	}
+	if a.TCPConn != nil {
+		if tcp, ok := a.TCPConn.RemoteAddr().(*net.TCPAddr); ok && tcp != nil && tcp.IP != nil && !tcp.IP.IsUnspecified() {
+			return tcp.IP
+		}
+	}
+	if a.ActualClientAddr != nil {
+		return a.ActualClientAddr.IP
+	}
+	return nil
+}
+
 // ReadLoop reads datagrams from the SOCKS5 client and relays them through the mesh.
 // This should be run in a goroutine.
 func (a *UDPAssociation) ReadLoop() {
@@ -183,24 +204,20 @@ func (a *UDPAssociation) ReadLoop() {
 			continue
 		}
 
-		// Update actual client address on first datagram
+		// Only the client that owns the association may use the relay socket.
+		// Datagrams from any other address are ignored, and only a sender
+		// that passes this check is recorded as the client that replies are
+		// sent to (a stranger sending first must not capture the replies).
 		a.mu.Lock()
+		owner := a.ownerIPLocked()
+		if owner != nil && !clientAddr.IP.Equal(owner) {
+			a.mu.Unlock()
+			continue
+		}
 		if a.ActualClientAddr == nil {
 			a.ActualClientAddr = clientAddr
 		}
 		a.mu.Unlock()
-
-		// Verify client address if expected address was specified
-		a.mu.RLock()
-		expected := a.ExpectedClientAddr
-		a.mu.RUnlock()
-
-		if expected != nil && expected.IP != nil && !expected.IP.IsUnspecified() {
-			if !clientAddr.IP.Equal(expected.IP) {
-				// Ignore datagrams from unexpected addresses
-				continue
-			}
-		}
 
 		// Parse SOCKS5 UDP header
 		header, payload, err := ParseUDPHeader(buf[:n])
